@@ -61,6 +61,7 @@ func runReplayTest(e *replayEntry, model map[string]string) (confirmed bool, out
 	if dir == "" {
 		dir = "/repo"
 	}
+	dir = repoDir(dir)
 	if pkg == "" {
 		pkg = "./vgirpc"
 	}
